@@ -112,12 +112,16 @@ def gen(rng, tier):
         nd = rng.randrange(1, 5)
         w = {"add": 3, "cb": 3, "eb": 2, "cancel": 3}   # no pause/unpause: independent of the C01 finding F1
         cases.append(K.rand_program(rng, nd, rng.randrange(3, 16), weights=w))
+    # Deferred debugging (defer.setDebugging(True)) must not change anything observable: a sample once more with it on
+    cases += K.with_debug(cases, rng, 0.12 if tier == "quick" else 0.08)
     return cases
 
 
 def corpus():
     return [
         history("xcc", ["none"], ["none"]),            # cancel, swallowed late result, then AlreadyCalledError
+        {**history("xcc", ["none"], ["none"]), "debug": True},      # the same under defer.setDebugging(True)
+        {**history("acxii", ["none"], ["none"]), "debug": True},
         history("acxii", ["none"], ["none"]),          # cancel forwarded to the inner Deferred, late inner results
         history("acxx", ["none"], ["raise", 1]),       # forwarded cancel whose canceller raises: may run again
         history("xx", ["cb", 7], ["none"]),            # canceller fires; second cancel is a no-op
@@ -276,6 +280,8 @@ def shrink(case):
 
 
 def histogram(case, obs):
+    if case.get("debug"):
+        return "under defer.setDebugging(True)"
     c = case["canc"]
     if case.get("family") == "three":
         return f"3-level history len={len(case['word'])} pending={c[0][0]}"
@@ -292,7 +298,7 @@ SPEC = Spec(
     to_coq=K.coq_program,
     nontrivial=lambda c, o: any(t in o for t in ("A", "S", "K", "EC")),
     histogram=histogram,
-    describe=lambda c: {"canc": c["canc"], "ops": c["ops"][:12]},
+    describe=lambda c: {"canc": c["canc"], "ops": c["ops"][:12], "debug": bool(c.get("debug"))},
     rule="every history of length <= 5 (quick; length 4 sampled 50%, length 5 sampled 6%) / <= 6 (thorough; length 5 sampled 30%, length 6 sampled 3%) over {outer.callback, "
          "outer.errback, outer.cancel, add a callback returning the unfired inner Deferred, fire the inner Deferred} "
          "x 7 (quick) / 25 (thorough) canceller pairs from {none, does nothing, fires callback, fires errback, "
@@ -300,7 +306,7 @@ SPEC = Spec(
          "that alphabet + {inner.cancel, inner.errback}; every history with a cancel of length <= 3 (8% of 4, 0.5% of 5; thorough <= 4, 10% of 5, 0.5% of 6) over the "
          "3-level alphabet {outer returns middle, middle returns pending, fire each, cancel each} x 3 (5) cancellers of "
          "the pending Deferred; 500 (10 000) forwarding scenarios (2-5 levels of fired-and-waiting Deferreds, cancel at "
-         "any level, late results); 1 200 (10 000) random programs of 3-15 operations over the "
+         "any level, late results); 12% (8%) of all these cases once more under defer.setDebugging(True); 1 200 (10 000) random programs of 3-15 operations over the "
          "kernel alphabet without pause/unpause on 1-4 Deferreds.  non-trivial = an AlreadyCalledError, a swallowed result, a "
          "canceller call or a CancelledError occurs; distinct by (case, observation)",
     trusted=["hand-written kernel model coq/Lib/DeferredK.v (tied by this correspondence run only)",
